@@ -1,4 +1,6 @@
 """C08 (history property; see DESIGN.md section 5)."""
+import gen
+import hist
 from props.hist_base import HistPlugin
 
 
@@ -16,3 +18,12 @@ class Plugin(HistPlugin):
             'compared. Non-trivial = at least one single-document write raises; distinct by canonical JSON.')
     FINDING_BITS = 1 | 8
     UNDECIDED_BITS = 2 | 4 | 16
+
+    def gen_case(self, rng, i, tier):
+        if rng.random() < 0.3:
+            return {'ops': hist.gen_focus_unique(rng), 'pre5': False}
+        gen.TINY[0] = rng.random() < 0.6
+        try:
+            return HistPlugin.gen_case(self, rng, i, tier)
+        finally:
+            gen.TINY[0] = False
